@@ -316,6 +316,10 @@ Proof. exact generated_shapes_filters. Qed.
 Theorem c05_modelled_functions_unchanged_tables_op : shapes_hold fn_shapes shapes_tables_op = true.
 Proof. exact generated_shapes_tables_op. Qed.
 
+(* the cargo features are independent switches with nothing on by default: a feature set of the model means exactly its cfgs *)
+Theorem c05_feature_table_unchanged : features_hold cargo_features = true.
+Proof. exact generated_features. Qed.
+
 Eval vm_compute in "ASSUMPTIONS c05_mapping". Print Assumptions c05_mapping.
 Eval vm_compute in "ASSUMPTIONS c05_invalid_command_status". Print Assumptions c05_invalid_command_status.
 Eval vm_compute in "ASSUMPTIONS c05_status_range". Print Assumptions c05_status_range.
@@ -349,3 +353,4 @@ Eval vm_compute in "ASSUMPTIONS c05_modelled_functions_unchanged_tables_op". Pri
 Eval vm_compute in "ASSUMPTIONS c05_error_at_any_depth". Print Assumptions c05_error_at_any_depth.
 Eval vm_compute in "ASSUMPTIONS c05_wrong_type_at_any_depth". Print Assumptions c05_wrong_type_at_any_depth.
 Eval vm_compute in "ASSUMPTIONS c05_generated_wrong_type_at_any_depth". Print Assumptions c05_generated_wrong_type_at_any_depth.
+Eval vm_compute in "ASSUMPTIONS c05_feature_table_unchanged". Print Assumptions c05_feature_table_unchanged.
